@@ -365,7 +365,7 @@ restart:
             }
 
             // see if we want to restart the decompressor
-            HTP_VERIF_PROBE("decomp.restart", d->tx->connp, drec->stream.total_in, drec->restart);
+            HTP_VERIF_PROBE("decomp.restart", d->tx->connp, drec->stream.total_in, (d->len - consumed) - drec->stream.avail_in);
             if (htp_gzip_decompressor_restart(drec,
                                               d->data, d->len, &consumed) == 1)
             {
